@@ -87,31 +87,21 @@ impl Case {
     }
 }
 
-/// parse the edge-list (`a,b` per line) or DOT (`a -> b` / `a -- b` lines) output
+/// parse the edge-list (`a,b` per line) or DOT output
 pub fn parse_output(out: &str, dot: bool, undirected: bool) -> Result<Vec<(String, String)>, String> {
     let mut edges = Vec::new();
     if dot {
-        let mut lines = out.lines();
-        let first = lines.next().ok_or("empty DOT output")?;
-        let want = if undirected { "graph G {" } else { "digraph G {" };
-        if first != want {
-            return Err(format!("DOT output starts with {:?}, expected {:?}", first, want));
+        // any layout / quoting style of the DOT language; only the graph it denotes counts
+        let g = crate::dot::parse(out)?;
+        if g.directed == undirected {
+            return Err(format!(
+                "DOT output is a {} but the request was {}",
+                if g.directed { "digraph" } else { "graph" },
+                if undirected { "undirected" } else { "directed" }
+            ));
         }
-        let mut closed = false;
-        for l in lines {
-            if closed {
-                return Err("text after the closing brace".into());
-            }
-            if l == "}" {
-                closed = true;
-                continue;
-            }
-            let sep = if undirected { " -- " } else { " -> " };
-            let (a, b) = l.trim().split_once(sep).ok_or_else(|| format!("malformed DOT edge line {:?}", l))?;
-            edges.push((a.to_string(), b.to_string()));
-        }
-        if !closed {
-            return Err("DOT output is not closed".into());
+        for (a, _, b) in g.edges {
+            edges.push((a, b));
         }
     } else {
         for l in out.lines() {
